@@ -45,13 +45,19 @@ pub open spec fn is_decl_start(t: BaseToken) -> bool {
 
 // ---- node buffer ----
 pub open spec fn cell(b: ParseBuffer, i: int) -> Option<ParseNode> { mu_val(b.nodes@[i]) }
+// (the two cell-wise quantifiers are opaque: the parse functions only pass them along, the buffer methods reveal them)
+#[verifier::opaque]
+pub open spec fn cells_init(b: ParseBuffer) -> bool { forall|i: int| 0 <= i < b.num_nodes ==> mu_val(#[trigger] b.nodes@[i]).is_some() }
 pub open spec fn pb_inv(b: ParseBuffer) -> bool {
 	&&& b.num_nodes <= b.nodes@.len() <= 0x1000000
-	&&& forall|i: int| 0 <= i < b.num_nodes ==> mu_val(#[trigger] b.nodes@[i]).is_some()
+	&&& cells_init(b)
 	&&& match b.active_private_zone { Some(z) => u24v(z.0) < b.num_nodes && cell(b, u24v(z.0)) == Some(ParseNode::EndlessPrivateZone), None => true }
 }
 pub open spec fn recent(b: ParseBuffer, n: NodeId) -> bool { u24v(n.0) + 1 == b.num_nodes }
-pub open spec fn unpatched(b: ParseBuffer, n: NodeId) -> bool { u24v(n.0) < b.num_nodes && cell(b, u24v(n.0)) == Some(ParseNode::UnpatchedListItem) }
+// (stated over the node slice and count, so that buffer states differing only in the zone marker share the trigger term)
+pub open spec fn unpc(s: Seq<MaybeUninit<ParseNode>>, n: int, i: int) -> bool { 0 <= i < n && mu_val(s[i]) == Some(ParseNode::UnpatchedListItem) }
+pub open spec fn unp(b: ParseBuffer, i: int) -> bool { unpc(b.nodes@, b.num_nodes as int, i) }
+pub open spec fn unpatched(b: ParseBuffer, n: NodeId) -> bool { unp(b, u24v(n.0)) }
 pub open spec fn list_ok(b: ParseBuffer, l: Option<ActiveList>) -> bool {
 	match l { Some(a) => unpatched(b, a.last_node) && u24v(a.first_node.0) <= u24v(a.last_node.0), None => true }
 }
@@ -60,15 +66,25 @@ pub open spec fn list_ok(b: ParseBuffer, l: Option<ActiveList>) -> bool {
 pub open spec fn extends(b0: ParseBuffer, b1: ParseBuffer) -> bool {
 	&&& b1.nodes@.len() == b0.nodes@.len()
 	&&& b0.num_nodes <= b1.num_nodes
-	&&& forall|i: int| 0 <= i < b0.num_nodes && mu_val(#[trigger] b0.nodes@[i]) == Some(ParseNode::UnpatchedListItem) ==> mu_val(b1.nodes@[i]) == Some(ParseNode::UnpatchedListItem)
+	&&& forall|i: int| #[trigger] unpc(b0.nodes@, b0.num_nodes as int, i) ==> unpc(b1.nodes@, b1.num_nodes as int, i)
 }
 
+// every cell of b0 except k is unchanged in b1 (opaque: stated and proved by the buffer methods, not unfolded by the
+// parse functions, which only need the UnpatchedListItem part below)
+#[verifier::opaque]
+pub open spec fn cells_same_except(b0: ParseBuffer, b1: ParseBuffer, k: int) -> bool { forall|i: int| 0 <= i < b0.num_nodes && i != k ==> mu_val(b1.nodes@[i]) == mu_val(#[trigger] b0.nodes@[i]) }
+pub open spec fn unp_kept_except(b0: ParseBuffer, b1: ParseBuffer, k: int) -> bool { forall|i: int| #[trigger] unpc(b0.nodes@, b0.num_nodes as int, i) && i != k ==> unpc(b1.nodes@, b1.num_nodes as int, i) }
+pub open spec fn lastk(l: Option<ActiveList>) -> int { match l { Some(a) => u24v(a.last_node.0), None => -1 } }
+
 // b1 is b0 with exactly n nodes appended and nothing else changed
+#[verifier::opaque]
+pub open spec fn cells_same(b0: ParseBuffer, b1: ParseBuffer) -> bool { forall|i: int| 0 <= i < b0.num_nodes ==> mu_val(b1.nodes@[i]) == mu_val(#[trigger] b0.nodes@[i]) }
 pub open spec fn appended(b0: ParseBuffer, b1: ParseBuffer, n: int) -> bool {
 	&&& b1.nodes@.len() == b0.nodes@.len()
 	&&& b1.num_nodes == b0.num_nodes + n
 	&&& b1.active_private_zone == b0.active_private_zone
-	&&& forall|i: int| 0 <= i < b0.num_nodes ==> mu_val(b1.nodes@[i]) == mu_val(#[trigger] b0.nodes@[i])
+	&&& cells_same(b0, b1)
+	&&& extends(b0, b1)
 }
 
 // ---- the uniform contract of the parse_* functions -------------------------------------------
